@@ -4,8 +4,11 @@ import os
 import sys
 
 sys.path.insert(0, os.path.dirname(os.path.dirname(os.path.abspath(__file__))))
-from vlib import genmon, schemes
+from vlib import covmon, genmon, schemes
 from vlib.common import Check, Rng, main_guard, arg_value
+
+
+WORK_BOUND = 20000   # deviates per shot; see the 'rule' text in the evidence
 
 
 def spec_lines(chk, quick, frac):
@@ -14,7 +17,7 @@ def spec_lines(chk, quick, frac):
     lines = []
     for n in schemes.background_names():
         thr = schemes.harvest_thresholds(schemes.parts_of(n))
-        lines.append("B %s %s" % (n, " ".join("%.17g" % t for t in thr)))
+        lines.append("B %s %s %d" % (n, " ".join("%.17g" % t for t in thr), WORK_BOUND))
     skipped = 0
     for iso in sorted(table):
         for level in sorted(table[iso]["levels"]):
@@ -24,14 +27,24 @@ def spec_lines(chk, quick, frac):
                 if mode in genmon.EXPENSIVE and rng.uniform() > frac:
                     skipped += 1
                     continue
-                lines.append(genmon.dbd_line(table, iso, level, mode))
+                lines.append(genmon.dbd_line(table, iso, level, mode, work_bound=WORK_BOUND))
+                # mode 10 samples the single positron by rejection under the maximum of the whole spectrum (as the reference does):
+                # inside a window its acceptance is f(E)/f_max, legitimately tiny in a tail - only the hard cap applies there
+                wb = 0 if mode == 10 else WORK_BOUND
+                e0 = genmon.e0_of(table, iso, level, mode)
                 if mode in genmon.WINDOW_MODES and rng.uniform() < 0.5:
                     # a window on the 1/64 MeV lattice starting in the lower half of the kinematic range
-                    steps = int(genmon.e0_of(table, iso, level, mode) * 64)
+                    steps = int(e0 * 64)
                     if steps >= 4:
                         a = rng.randint(0, steps // 2)
                         b = a + rng.randint(max(1, steps // 6), steps)
-                        lines.append(genmon.dbd_line(table, iso, level, mode, (a / 64.0, b / 64.0)))
+                        lines.append(genmon.dbd_line(table, iso, level, mode, (a / 64.0, b / 64.0), work_bound=wb))
+                if mode in genmon.WINDOW_MODES and mode != 10 and e0 > 0.1 and rng.uniform() < (0.25 if quick else 1.0):
+                    # ladder of windows climbing towards the end-point: the samplers adapt their envelopes to the window, so the
+                    # work per shot must not grow while the window gets rarer (full/window ratio up to ~1e9 here)
+                    for k in ((2, 4, 6) if quick else (1, 2, 3, 4, 5, 6, 7)):
+                        lines.append(genmon.dbd_line(table, iso, level, mode, (e0 * (1 - 2.0 ** -k), 4.3), work_bound=wb))
+                    lines.append(genmon.dbd_line(table, iso, level, mode, (0.0, e0 * 2.0 ** -rng.randint(1, 5)), work_bound=wb))
     return lines, skipped
 
 
@@ -66,9 +79,10 @@ def main():
             nd += 1
         worst.append((r["max_draws"], r["p999_draws"], r["config"]))
         for m in r["wellformed"]:
-            if m["key"].endswith("|unbounded-draws") and r["window"] and isinstance(r["toallevents"], (int, float)) and r["toallevents"] > 300:
-                # rejection sampling inside a window that holds less than 1/300 of the spectrum: the acceptance is
-                # legitimately below ~1e-3 and the draw cap proves nothing; reported, never a verdict
+            if m["key"].endswith("|unbounded-draws") and r["window"] and r["mode"] == 10 and isinstance(r["toallevents"], (int, float)) and r["toallevents"] > 300:
+                # mode 10 (one positron sampled by rejection under the maximum of the whole spectrum, as in the reference) inside a
+                # window that holds less than 1/300 of the spectrum: the acceptance is legitimately below ~1e-3 and the draw cap
+                # proves nothing; reported, never a verdict
                 slow.append({"config": r["config"], "toallevents": r["toallevents"], "shots_cut": m["count"]})
                 continue
             chk.violation(m["key"], "%s: %s [%d events; steering: %s]" % (r["config"], m["detail"], m["count"], m["steer"] or "i.i.d."),
@@ -76,6 +90,11 @@ def main():
         if r.get("sample") and len(samples) < 3:
             samples.append({"config": r["config"], **r["sample"]})
     worst.sort(reverse=True)
+    # ---- reach of this workload inside the library (gcov build of the working tree; decides nothing, recorded as evidence)
+    reach, cfiles = covmon.measure_gen_monitor(lines, chk.seed, 200 if quick else 3000, 4 if quick else 12, True)
+    if reach["processes_failed"]:
+        chk.note("coverage measurement: %d gen_monitor processes of the gcov build failed" % reach["processes_failed"])
+    chk.require(reach["lines"]["percent"] >= 60.0, "the workload reached only %.1f %% of the library's lines" % reach["lines"]["percent"])
     chk.require(nb >= 69, "only %d background names generated (expected 69)" % nb)
     chk.require(nd >= 300, "only %d double-beta configurations generated" % nd)
     chk.coverage.update({
@@ -83,7 +102,9 @@ def main():
         "distinct_nontrivial": distinct,
         "rule": "one evaluation = one shot of decay0_generator on one tape, monitored for: 1..100 particles, species in {gamma,e-,e+,alpha}, "
                 "finite momenta, 0 <= Ekin <= bound (12 MeV background / Q double beta), finite non-negative non-decreasing times, event time 0, "
-                "generator label, is_valid(), draws <= 2e6; tapes: i.i.d. + each of the first K<=64 cells pinned to 1e-12, 1-1e-12, 1e-300, "
+                "generator label, is_valid(), draws <= 2e6 (hard cap) and draws <= 20000 (work bound: observed maxima on this tree stay below ~5000 "
+                "even for windows holding 1e-15 of the spectrum; not applied to windows on mode 10, whose reference algorithm rejects under the "
+                "maximum of the whole positron spectrum); window ladders climbing to the end-point for the window-capable modes; tapes: i.i.d. + each of the first K<=64 cells pinned to 1e-12, 1-1e-12, 1e-300, "
                 "pairs of neighbouring cells in opposite tails, a quantile/log-tail grid and branching thresholds, and 40 leading cells all "
                 "in one tail; distinct = distinct (configuration, branch signature) pairs",
         "samples": samples,
@@ -93,6 +114,7 @@ def main():
         "draws_per_shot_worst": [{"config": c, "max": m, "p999": p} for (m, p, c) in worst[:8]],
         "draw_cap": 2000000,
         "far_tail_windows_not_judged": slow,
+        "library_reach_gcov": reach,
     })
     chk.assumptions += ["bounded work is decided in deviates drawn per shot (cap 2e6), never in seconds",
                         "gA modes are covered by C14 on synthetic datasets"]
